@@ -79,7 +79,11 @@ fn book_gen(m: &HashMap<String, String>) {
         let trading = if profile == "toggle" { rng.gen::<f64>() < 0.7 } else { true };
         let t0: u64 = if wide { 1 << 40 } else { rng.gen_range(0..100) };
         let np = if rng.gen::<f64>() < 0.3 { n_prices + 3 } else { n_prices };
-        let base = if wide {
+        let edge = profile == "edge";
+        let base = if edge {
+            // grid prices at the very ends of the price range: 0, tick, .. or .., floor(MAX/tick)*tick
+            if rng.gen::<f64>() < 0.5 { 0 } else { u32::MAX / tick - (np - 1) }
+        } else if wide {
             // a window of grid prices just below 2^32 - 1 (strictly inside (0, MAX))
             let top = (u32::MAX - 1) / tick;
             if rng.gen::<f64>() < 0.5 { top - np } else { 1 }
@@ -541,8 +545,24 @@ fn replay(path: &str) {
     let _ = std::fs::remove_dir_all(&scratch);
 }
 
+/// Last panic message (panics inside `catch_unwind` are expected and silent; one that escapes
+/// kills the process, and then this is what went wrong).
+static LAST_PANIC: std::sync::Mutex<String> = std::sync::Mutex::new(String::new());
+
 fn main() {
-    std::panic::set_hook(Box::new(|_| {}));
+    std::panic::set_hook(Box::new(|info| {
+        if let Ok(mut g) = LAST_PANIC.lock() {
+            *g = info.to_string();
+        }
+    }));
+    let r = std::panic::catch_unwind(real_main);
+    if r.is_err() {
+        eprintln!("harness panicked outside a guarded call: {}", LAST_PANIC.lock().map(|g| g.clone()).unwrap_or_default());
+        std::process::exit(101);
+    }
+}
+
+fn real_main() {
     let args: Vec<String> = std::env::args().collect();
     if args.len() < 2 {
         eprintln!("usage: drive <book-gen|book-replay> ...");
